@@ -12,7 +12,9 @@ PY = "/venv/bin/python"
 
 
 def sh(cmd, **kw):
-    return subprocess.run(cmd, shell=True, capture_output=True, text=True, **kw)
+    # the checks run by this tool look at changed trees: their evidence records do not belong in evidence/
+    env = dict(os.environ, VERIF_EVIDENCE_DIR=os.path.join(V, ".work", "evidence-maintenance"))
+    return subprocess.run(cmd, shell=True, capture_output=True, text=True, env=env, **kw)
 
 
 def failing_tests():
